@@ -38,25 +38,65 @@ fn step(m: &[u32], relaxed: bool) {
     }
 }
 
-// @harness props=C01,C02 tier=quick cap=1800 mem=24
-// every 14-digit line that get_message takes as a frame, DF unconstrained (incl. lines whose
-// first bits announce a 112-bit format): the whole per-frame step, -R symbolic, raises no check
-#[cfg_attr(kani, kani::proof)]
-#[cfg_attr(kani, kani::unwind(57))]
-#[cfg_attr(kani, kani::stub(chrono::Utc::now, crate::verif::rt::stub_now))]
-#[cfg_attr(kani, kani::stub(crate::decoder::utils::format::clean_squitter, super::c04::stub_clean_squitter))]
-#[cfg_attr(kani, kani::stub(crate::decoder::adsb::ais::ais, super::rows::stub_ais))]
-#[cfg_attr(kani, kani::stub(crate::decoder::adsb::position::cpr_location, super::rows::stub_cpr_location))]
-#[cfg_attr(kani, kani::stub(crate::decoder::ehs::base::track_and_groundspeed, super::c12::stub_tag))]
-#[cfg_attr(verif_replay, test)]
-fn c01_step_any_short_line() {
-    let m = frame14();
-    let relaxed = any_bool();
-    let Some(v) = offer14(&m) else { return };
-    vcover!(bits(&m, 1, 5) == 4, "a DF4 line is taken");
-    vcover!(bits(&m, 1, 5) == 11, "a DF11 line is taken");
-    step(&v, relaxed);
+macro_rules! step_short_df {
+    ($name:ident, $df:expr) => {
+        #[cfg_attr(kani, kani::proof)]
+        #[cfg_attr(kani, kani::unwind(57))]
+        #[cfg_attr(kani, kani::stub(chrono::Utc::now, crate::verif::rt::stub_now))]
+        #[cfg_attr(kani, kani::stub(crate::decoder::get_downlink_format, super::rows::stub_get_df))]
+        #[cfg_attr(verif_replay, test)]
+        fn $name() {
+            // real address recovery (CRC-56) on purpose: nothing is cut in the short-frame step
+            let m = frame14();
+            pin_df(&m, $df);
+            let relaxed = any_bool();
+            let use_update = any_bool();
+            let Some(df) = get_downlink_format(&m) else { return };
+            let Some(icao) = get_icao(&m, df) else { return };
+            let fresh = create(&m, df, icao);
+            let mut p = any_row();
+            p.icao = icao;
+            apply(&mut p, &m, df, use_update, relaxed);
+            vcover!(use_update, "-U");
+            vcover!(!use_update, "default path");
+            vassert!(fresh.icao == icao && p.icao == icao, "C01: row address changed");
+        }
+    };
 }
+// every 56-bit frame of one DF (get_message lets a 14-digit line through only for DF 0-15, decided by
+// c02_frame_rule_short): address recovery, creation and both update paths on an arbitrary row raise no check
+// @harness name=c01_step_short_df00 props=C01 tier=thorough cap=600 family=c01sdf quickpick=3
+step_short_df!(c01_step_short_df00, 0);
+// @harness name=c01_step_short_df01 props=C01 tier=thorough cap=600 family=c01sdf quickpick=3
+step_short_df!(c01_step_short_df01, 1);
+// @harness name=c01_step_short_df02 props=C01 tier=thorough cap=600 family=c01sdf quickpick=3
+step_short_df!(c01_step_short_df02, 2);
+// @harness name=c01_step_short_df03 props=C01 tier=thorough cap=600 family=c01sdf quickpick=3
+step_short_df!(c01_step_short_df03, 3);
+// @harness name=c01_step_short_df04 props=C01 tier=thorough cap=600 family=c01sdf quickpick=3
+step_short_df!(c01_step_short_df04, 4);
+// @harness name=c01_step_short_df05 props=C01 tier=thorough cap=600 family=c01sdf quickpick=3
+step_short_df!(c01_step_short_df05, 5);
+// @harness name=c01_step_short_df06 props=C01 tier=thorough cap=600 family=c01sdf quickpick=3
+step_short_df!(c01_step_short_df06, 6);
+// @harness name=c01_step_short_df07 props=C01 tier=thorough cap=600 family=c01sdf quickpick=3
+step_short_df!(c01_step_short_df07, 7);
+// @harness name=c01_step_short_df08 props=C01 tier=thorough cap=600 family=c01sdf quickpick=3
+step_short_df!(c01_step_short_df08, 8);
+// @harness name=c01_step_short_df09 props=C01 tier=thorough cap=600 family=c01sdf quickpick=3
+step_short_df!(c01_step_short_df09, 9);
+// @harness name=c01_step_short_df10 props=C01 tier=thorough cap=600 family=c01sdf quickpick=3
+step_short_df!(c01_step_short_df10, 10);
+// @harness name=c01_step_short_df11 props=C01 tier=thorough cap=600 family=c01sdf quickpick=3
+step_short_df!(c01_step_short_df11, 11);
+// @harness name=c01_step_short_df12 props=C01 tier=thorough cap=600 family=c01sdf quickpick=3
+step_short_df!(c01_step_short_df12, 12);
+// @harness name=c01_step_short_df13 props=C01 tier=thorough cap=600 family=c01sdf quickpick=3
+step_short_df!(c01_step_short_df13, 13);
+// @harness name=c01_step_short_df14 props=C01 tier=thorough cap=600 family=c01sdf quickpick=3
+step_short_df!(c01_step_short_df14, 14);
+// @harness name=c01_step_short_df15 props=C01 tier=thorough cap=600 family=c01sdf quickpick=3
+step_short_df!(c01_step_short_df15, 15);
 
 macro_rules! step_tc {
     ($name:ident, $df:expr, $tc:expr) => {
@@ -215,3 +255,23 @@ step_long_df!(c01_step_df20, 20);
 // @harness name=c01_step_df21 props=C01,C10 tier=thorough cap=2400 mem=24
 // every DF21 frame
 step_long_df!(c01_step_df21, 21);
+
+// @harness props=C01,C08 tier=quick cap=1800 needs=kfmod
+// the CPR decoder itself on EVERY pair of frames (all 2^68 field values), either parity, airborne
+// (coeff 1) and surface (coeff 4) zone counts: no division by zero, overflow or bad index; an answer,
+// when given, is finite
+#[cfg_attr(kani, kani::proof)]
+#[cfg_attr(kani, kani::unwind(60))]
+#[cfg_attr(verif_replay, test)]
+fn c01_cpr_location_total() {
+    let lat = [any_below(1 << 17), any_below(1 << 17)];
+    let lon = [any_below(1 << 17), any_below(1 << 17)];
+    let form = any_below(2);
+    let surface = any_bool();
+    let got = cpr_location(&lat, &lon, form, if surface { 4 } else { 1 });
+    vcover!(surface && got.is_some(), "a surface pair decodes");
+    vcover!(!surface && got.is_none(), "an airborne pair is rejected");
+    if let Some((la, lo)) = got {
+        vassert!(la == la && lo == lo && la.abs() <= 360.0 && lo.abs() <= 360.0, "C01: CPR decode returns a non-finite / absurd coordinate");
+    }
+}
